@@ -569,6 +569,10 @@ package yang
 //@   ensures  n == nil ==> result == nil
 //@   ensures  n != nil && (prefix == "" || prefix == old(ownPrefix(rootOf(n)))) ==> result == rootOf(n)
 //@   ensures  n != nil && prefix != "" && prefix != old(ownPrefix(rootOf(n))) && (forall i int :: 0 <= i && i < len(old(rootOf(n).Import)) ==> old(rootOf(n).Import[i].Prefix.Name) != prefix) ==> result == nil
+//@   ensures[an-import-prefix-denotes-what-the-set-holds-under-the-imported-name-now] forall j int :: n != nil && prefix != "" && prefix != old(ownPrefix(rootOf(n))) && 0 <= j && j < len(old(rootOf(n).Import))
+//@            && old(rootOf(n).Import[j].Prefix.Name) == prefix && (forall i int :: 0 <= i && i < j ==> old(rootOf(n).Import[i].Prefix.Name) != prefix)
+//@            && old(rootOf(n).Import[j].RevisionDate) == nil && old(rootOf(n).Modules.Modules[rootOf(n).Import[j].Name]) != nil && nodeName(iface(old(rootOf(n).Import[j]))) == old(rootOf(n).Import[j].Name)
+//@            ==> result == old(rootOf(n).Modules.Modules[rootOf(n).Import[j].Name])
 //@   ensures[assume:an-import-prefix-denotes-one-module-per-declaring-module] n != nil && prefix != "" && prefix != old(ownPrefix(rootOf(n))) ==> result == importOf(old(rootOf(n)), prefix)
 //@   ensures[assume:loading-keeps-the-typedefs-and-types-that-exist] (forall x *Typedef :: allocated(x) ==> x.Name == old(x.Name) && x.Parent == old(x.Parent) && x.Type == old(x.Type) && x.Units == old(x.Units) && x.Default == old(x.Default) && x.YangType == old(x.YangType) && x.resolving == old(x.resolving))
 //@            && (forall x *Type :: allocated(x) ==> x.Name == old(x.Name) && x.IdentityBase == old(x.IdentityBase) && x.YangType == old(x.YangType))
